@@ -450,8 +450,15 @@ package gojq
 //@   requires 0 <= start && start <= l.offset
 //@   requires l.inString ==> start == l.offset
 //@   requires !l.inString ==> start + 1 == l.offset
+//@   requires !l.inString ==> l.source[start] == '"'
 //@   modifies l.offset, l.token, l.inString, HC_bool, HC_int
+//@   loop 1 use ctl_gap(l.source, i, i + 2)
+//@   loop 1 use ctl_gap(l.source, i, i + 6)
+//@   loop 1 use ctl_sub(l.source, start, i, i - start)
+//@   loop 1 use ctl_sub(l.source, start, i + 1, i + 1 - start)
+//@   loop 1 invariant i <= len(l.source) ==> controls == ctl(l.source, i) - ctl(l.source, start)
 //@   loop 2 invariant 1 <= j && i + j <= len(l.source) && 1 <= i
+//@   loop 2 invariant forall k :: {l.source[i+k]} 1 <= k && k < j ==> l.source[i+k] >= 48
 //@   ensures tok >= 128 && tokenSpan(l, tok)
 
 //@ func (*lexer).Lex$1()
@@ -475,9 +482,12 @@ package gojq
 //@   ensures b == (('a' <= ch && ch <= 'f') || ('A' <= ch && ch <= 'F') || ('0' <= ch && ch <= '9'))
 
 // unquote closure of scanString: reads the captured decode/controls, writes nothing the caller sees.
-// Assumed (not verified): depends on quoteAndEscape's counting precondition (see DESIGN §3 C08).
-//@ trusted (*lexer).scanString$1(src string, quote bool) (r string, err error)
+// controls must be the number of control characters of the text handed over (quoteAndEscape sizes its
+// buffer from it).
+//@ func (*lexer).scanString$1(src string, quote bool) (r string, err error)
+//@   property C08
 //@   requires quote || len(src) >= 2
+//@   requires controls == ctl(src, len(src))
 
 // ---------------------------------------------------------------------------------------
 // C07: control skeleton of the interpreter loop (execute.go). The opcode handlers are not under
@@ -711,3 +721,48 @@ package gojq
 //@   loop 1 invariant e.w == old(e.w) && 0 <= start && start <= i && i <= len(s)
 //@   loop 1 invariant out(e.w) + s[start:i] + escFrom(s, i) == old(out(e.w)) + "\"" + escFrom(s, 0)
 //@   ensures out(e.w) == old(out(e.w)) + "\"" + escFrom(s, 0) + "\""
+
+// ---------------------------------------------------------------------------------------
+// C08: the buffer of quoteAndEscape is sized from a count of control characters made by its caller.
+// ctl(s, k) = number of bytes below 0x20 among s[0..k).
+// ---------------------------------------------------------------------------------------
+//@ spec func ctl(s string, k int) int
+//@ axiom ctl_zero: forall s string :: {ctl(s, 0)} ctl(s, 0) == 0
+//@ axiom ctl_step: forall s string; p, q int :: {ctl(s, p), ctl(s, q)} q == p + 1 && 0 <= p && p < len(s) ==> ctl(s, q) == ctl(s, p) + ((s[p] < 32) ? 1 : 0)
+
+//@ lemma ctl_mono(s string, a int, b int)
+//@   property C08
+//@   requires 0 <= a && a <= b && b <= len(s)
+//@   ensures ctl(s, a) <= ctl(s, b)
+//@   induct b
+//@   decreases b - a
+//@   trigger ctl(s, a), ctl(s, b)
+
+//@ lemma ctl_bound(s string, k int)
+//@   property C08
+//@   requires 0 <= k && k <= len(s)
+//@   ensures 0 <= ctl(s, k) && ctl(s, k) <= k
+//@   induct k
+//@   decreases k
+//@   trigger ctl(s, k)
+
+//@ lemma ctl_gap(s string, a int, b int)
+//@   property C08
+//@   requires 0 <= a && a <= b && b <= len(s)
+//@   requires forall k :: {s[k]} a <= k && k < b ==> s[k] >= 32
+//@   ensures ctl(s, b) == ctl(s, a)
+//@   induct b
+//@   decreases b - a
+
+//@ lemma ctl_sub(s string, a int, b int, k int)
+//@   property C08
+//@   requires 0 <= a && 0 <= k && a + k <= b && b <= len(s)
+//@   ensures ctl(s[a:b], k) == ctl(s, a + k) - ctl(s, a)
+//@   induct k
+//@   decreases k
+
+//@ func quoteAndEscape(src string, quote bool, controls int) (buf []byte)
+//@   property C08
+//@   requires controls == ctl(src, len(src))
+//@   loop 1 invariant 0 <= i && i <= len(src) && j == (quote ? 1 : 0) + i + 5 * ctl(src, i) && len(buf) == len(src) + 5 * ctl(src, len(src)) + (quote ? 2 : 0)
+//@   ensures len(buf) == len(src) + 5 * controls + (quote ? 2 : 0)
